@@ -183,6 +183,10 @@ func baseOCI(src interface{ Intn(int) int }) *oci.Spec {
 		s.Linux = &oci.Linux{Devices: []oci.LinuxDevice{{Path: "/dev/preexisting", Type: "c", Major: 1, Minor: 3}}}
 		s.Process.User.UID = 1001
 	}
+	// supplementary groups the runtime set already, from the value space the Specs use
+	for k, n := 0, src.Intn(3); k < n; k++ {
+		s.Process.User.AdditionalGids = append(s.Process.User.AdditionalGids, uint32(src.Intn(4))*1000+uint32(src.Intn(3)))
+	}
 	return s
 }
 
@@ -511,6 +515,9 @@ func c14(r *core.Run) {
 		case 1: // Device.ApplyEdits
 			q := st.names[src.Intn(len(st.names))]
 			work := baseOCI(src)
+			if len(containers) > 0 && src.Bool(1, 3) {
+				work = containers[src.Intn(len(containers))] // a container spec that is already in use
+			}
 			var err error
 			e.do("Device.ApplyEdits", func() {
 				if d := e.cache.GetDevice(q); d != nil {
@@ -519,9 +526,15 @@ func c14(r *core.Run) {
 			})
 			what = fmt.Sprintf("GetDevice(%s).ApplyEdits", q)
 			r.Notef("%s -> %v", what, err)
+			if err == nil {
+				containers = append(containers, work)
+			}
 		case 2: // Spec.ApplyEdits
 			q := st.names[src.Intn(len(st.names))]
 			work := baseOCI(src)
+			if len(containers) > 0 && src.Bool(1, 3) {
+				work = containers[src.Intn(len(containers))] // a container spec that is already in use
+			}
 			var err error
 			e.do("Spec.ApplyEdits", func() {
 				if d := e.cache.GetDevice(q); d != nil {
@@ -530,6 +543,9 @@ func c14(r *core.Run) {
 			})
 			what = fmt.Sprintf("GetDevice(%s).GetSpec().ApplyEdits", q)
 			r.Notef("%s -> %v", what, err)
+			if err == nil {
+				containers = append(containers, work)
+			}
 		case 3: // host change
 			hp := hostPaths[src.Intn(len(hostPaths))]
 			h := drawHost(r, true)
